@@ -57,7 +57,32 @@ fn flow_ref(rng: &mut Rng, id: u64, label: &Option<String>) -> FlowRef {
 }
 
 pub fn gen_step(s: &mut Incent, rng: &mut Rng, ctx: &mut Ctx) -> Step {
+    if let Some(st) = s.script.pop() {
+        return st;
+    }
     let o = s.obs.clone();
+    // scripted micro-history: with a flow that still runs for more than 115 epochs and a staker present,
+    // let more epochs pass than the claim cap covers, then claim in each of the following epochs
+    if s.cfg.allow.long_flows && rng.chance(1, 40) {
+        let e = o.epoch;
+        let staker = (0..s.cfg.n_users).find(|i| !o.open[*i].is_empty());
+        let long_flow = o.flows.iter().any(|f| f.end_latest() > e + 115 && f.start <= e + 1);
+        if let (Some(actor), true) = (staker, long_flow) {
+            ctx.probe("script_claim_gap_beyond_cap_then_series");
+            let mut q = vec![];
+            q.push(Step { actor, op: Op::NewEpoch { n: rng.range(101, 104) as u32 }, adv_s: 0, fault: Fault::None });
+            q.push(Step { actor, op: Op::Snapshot, adv_s: 0, fault: Fault::None });
+            q.push(Step { actor, op: Op::Claim, adv_s: 0, fault: Fault::None });
+            for _ in 0..rng.range(9, 14) {
+                q.push(Step { actor, op: Op::NewEpoch { n: 1 }, adv_s: 0, fault: Fault::None });
+                q.push(Step { actor, op: Op::Snapshot, adv_s: 0, fault: Fault::None });
+                q.push(Step { actor, op: Op::Claim, adv_s: 0, fault: Fault::None });
+            }
+            q.reverse();
+            s.script = q;
+            return s.script.pop().unwrap();
+        }
+    }
     let na = s.na();
     let snap = o.snap.is_some();
     let any_pos = o.open.iter().any(|v| !v.is_empty());
